@@ -23,7 +23,8 @@ RULE = ("pairs/triples of pool documents with different palettes and shapes, eac
         "preemptions. Exhaustive: every single preemption at every boundary of every thread of the listed "
         "pairs (the other thread then runs to completion); two preemptions on a grid of boundaries (thread A left at "
         "k1, thread B left at k2, A completes, B completes; denser in the first tenth of an encode); cold-start "
-        "schedules in fresh interpreters; sampled: 2-4 preemptions, 3 threads. "
+        "schedules in fresh interpreters; sampled: 2-4 preemptions, 3 threads; free-running (unscheduled) threads "
+        "in fresh interpreters with a 1 microsecond switch interval, 4 pairs x 6 (thorough 100) processes x 6 encodes. "
         "non-trivial = >=1 preemption actually taken; distinct by (documents, schedule) hash")
 ASSUMPTIONS = ["threads are only switched at Python function entries inside src/rtflite (points where CPython "
                "may switch threads anyway); finer-grained (bytecode-level) preemption is not explored",
@@ -65,6 +66,19 @@ def _grp(n, labels, nrow):
 
 LOCAL = {"grp_a": _grp(6, ["a"] * 3 + ["b"] * 3, 1), "grp_b": _grp(4, ["x", "x", "y", "y"], 3),
          "grp_c": _grp(9, ["p"] * 4 + ["q"] * 5, 2)}
+
+
+def _uni(chars, n):
+    df = c14.tagged(n, 2)
+    df["cols"].append({"name": "U", "dtype": "str", "values": ["".join(chr(c + r) for c in chars) for r in range(n)]})
+    return {"kind": "table", "df": df, "body": {}, "title": {"text": "TT0 " + "".join(chr(c) for c in chars)},
+            "footnote": {"text": "FN0 " + chr(chars[0])}}
+
+
+# non-ASCII text from different blocks (first use of the escaper in a cold process is inside the window)
+LOCAL["uni_a"] = _uni([0x4E2D, 0x6587, 0xAC00, 0xFF21], 4)
+LOCAL["uni_b"] = _uni([0x3B1, 0x416, 0xE9, 0x1F600], 5)
+STRESS_PAIRS = [("uni_a", "uni_b"), ("paged_s8", "paged_s14"), ("col_a", "col_b"), ("grp_a", "grp_c")]
 TRIPLES = [("col_a", "col_b", "multi_a"), ("figure", "pageby", "col_b"), ("col_a", "raising", "multi_b")]
 
 
@@ -93,6 +107,10 @@ def plan(tier, seed):
     for pair in (GRID_PAIRS[:4] if tier == "quick" else GRID_PAIRS):
         for i in range(4):
             descs.append({"kind": "grid", "docs": list(pair), "g": g, "lo": i, "step": 4, "timeout": 1800})
+    for pair in STRESS_PAIRS:
+        for i in range(1 if tier == "quick" else 4):
+            descs.append({"kind": "stress", "docs": list(pair), "procs": 6 if tier == "quick" else 25,
+                          "reps": 6, "timeout": 1800 if tier == "quick" else 7200})
     nrand = 400 if tier == "quick" else 20000
     for i in range(4 if tier == "quick" else 16):
         descs.append({"kind": "sampled", "n": nrand // (4 if tier == "quick" else 16), "timeout": 1800})
@@ -242,14 +260,43 @@ def _cold_child(argv):
         except Exception:
             pass
     td = tempfile.mkdtemp(prefix="rtfmon-c15cold-")
-    docs = {n: S.build(c14.POOL[n], td) for n in names}       # construction only, nothing encoded yet
+    docs = {n: S.build(LOCAL.get(n) or c14.POOL[n], td) for n in names}       # construction only, nothing encoded yet
 
     def encode_fn(n):
         def fn():
+            if mode == "stress":
+                # (redirect_stdout swaps a process-wide variable: free-running threads would race on it)
+                return docs[n].rtf_encode()
             with contextlib.redirect_stdout(io.StringIO()):
                 return docs[n].rtf_encode()
         return fn
-    if mode == "solo":
+    if mode == "stress":
+        sys.stdout = io.StringIO()
+        # free-running threads (no baton): CPython may switch between any two bytecodes; the switch interval is
+        # made tiny so that it does so all the time.  Every thread encodes its document `reps` times.
+        import threading
+        reps = int(argv[2])
+        sys.setswitchinterval(1e-6)
+        bar = threading.Barrier(len(names))
+        got = {n: [] for n in names}
+
+        def run(n):
+            fn = encode_fn(n)
+            bar.wait()
+            for _ in range(reps):
+                try:
+                    got[n].append(["ok", fn()])
+                except Exception as e:  # noqa
+                    got[n].append(["exc", type(e).__name__ + ": " + str(e)[:200]])
+        ths = [threading.Thread(target=run, args=(n,)) for n in names]
+        for t in ths:
+            t.start()
+        for t in ths:
+            t.join(300)
+        # distinct results per thread are enough for the parent
+        out = {"res": {n: [list(x) for x in {tuple(r) for r in got[n]}] for n in names},
+               "runs": {n: len(got[n]) for n in names}}
+    elif mode == "solo":
         out = {}
         for n in names:
             try:
@@ -267,6 +314,7 @@ def _cold_child(argv):
                "taken": [(t[0], t[1], t[2] + ":" + t[3]) for t in sch.taken]}
     import shutil
     shutil.rmtree(td, ignore_errors=True)
+    sys.stdout = sys.__stdout__
     sys.stdout.write("\nRESULT:" + json.dumps(out) + "\n")
     sys.stdout.flush()
     os._exit(0)
@@ -339,9 +387,39 @@ def run_cold(ctx, desc):
                               f"{out['taken']})", case, {"taken": out["taken"]})
 
 
+def run_stress(ctx, desc):
+    """free-running threads in fresh interpreters: preemption between any two bytecodes, unscheduled - what the
+    baton scheduler (function entries only) cannot produce.  A difference is a violation; agreement says little."""
+    names = desc["docs"]
+    want = _fresh(["solo", ",".join(names)])
+    if not want or "crash" in want:
+        ctx.notes.append("stress solo baseline failed: " + str(want)[:300])
+        ctx.count("shard_crashed")
+        return
+    for i in range(desc["procs"]):
+        out = _fresh(["stress", ",".join(names), desc["reps"]])
+        case = {"docs": names, "stress": True, "reps": desc["reps"]}
+        ctx.count("stress_processes")
+        if out is None or "crash" in out:
+            ctx.count("schedule_watchdog_fired")
+            ctx.case(dict(case, i=i), False)
+            continue
+        ctx.case(dict(case, i=i), True)
+        for n in names:
+            ctx.count("free_running_encodes_compared", out["runs"][n])
+            ctx.count("thread_results_compared", out["runs"][n])
+            bad = [r for r in out["res"][n] if r != want[n]]
+            if bad:
+                ctx.violation(f"free-running threads: encoding {n} next to {[m for m in names if m != n]} returned "
+                              f"{str(bad[0])[:90]} instead of its solo result", case, {"distinct_results": len(out["res"][n])})
+
+
 def run_shard(desc, ctx):
     if desc.get("kind") == "cold":
         run_cold(ctx, desc)
+        return
+    if desc.get("kind") == "stress":
+        run_stress(ctx, desc)
         return
     rng = random.Random(desc["seed"])
     env = Env()
@@ -408,6 +486,9 @@ def run_shard(desc, ctx):
 
 def replay(data, ctx):
     case = data["case"]
+    if case.get("stress"):
+        run_stress(ctx, {"docs": case["docs"], "procs": 10, "reps": case.get("reps", 6)})
+        return
     if case.get("cold_start"):
         global COLD_BOUNDARIES
         run_cold_one(ctx, case["docs"], case["preempt_thread"], case["boundary"])
